@@ -488,6 +488,19 @@ func insertUnknown(r *rng, kind string, d JV, g *gen) JV {
 		objs := allObjects(kind, &out) // re-collected: an insertion moves nested objects
 		o := pick(r, objs)
 		name := pick(r, []string{"zzUnknown", "_extra", "newProperty", "Key", "ON", "values2"})
+		if r.chance(1, 2) {
+			// a name that is known — but to another kind of object (a decoder shared between two
+			// object types would read it): only where this object type does not know it
+			types := []string{"flag", "prereq", "target", "rule", "rollout", "wv", "clause", "csa", "migration", "segment", "segtarget", "segrule"}
+			cand := pick(r, knownProps[pick(r, types)])
+			known := false
+			for _, k := range knownProps[o.t] {
+				known = known || k == cand
+			}
+			if !known && len(knownProps[o.t]) > 0 {
+				name = cand
+			}
+		}
 		val := g.value(0)
 		pos := r.intn(len(o.o.O) + 1)
 		no := make([]KV, 0, len(o.o.O)+1)
@@ -837,7 +850,41 @@ func encodeFlagPaths(f ldmodel.FeatureFlag) (outs [][]byte, errs []error, names 
 	ldmodel.MarshalFeatureFlagToJSONWriter(f, &w2)
 	arr.End()
 	b5, e5 := secondOfTwo(w2.Bytes(), w2.Error())
-	return [][]byte{b1, b2, b3, b4, b5}, []error{e1, e2, e3, e4, e5}, []string{"serialization", "encoding/json", "jwriter", "MarshalJSON", "jwriter, second of two values in one array"}
+	outs = [][]byte{b1, b2, b3, b4, b5}
+	errs = []error{e1, e2, e3, e4, e5}
+	names = []string{"serialization", "encoding/json", "jwriter", "MarshalJSON", "jwriter, second of two values in one array"}
+	if bad := checkKept(outs, names); bad != nil {
+		outs, errs, names = append(outs, nil), append(errs, bad), append(names, "results of the previous encode calls")
+	}
+	return outs, errs, names
+}
+
+// Results of earlier encode calls, kept (with a private copy) until the next call: an encoder that
+// hands out a buffer it will reuse corrupts what an earlier caller still holds.
+var (
+	keptEncoded [][]byte
+	keptCopies  [][]byte
+	keptNames   []string
+)
+
+// checkKept reports the first earlier result that no longer has the content it was returned with,
+// then remembers the new results.
+func checkKept(outs [][]byte, names []string) error {
+	var bad error
+	for i := range keptEncoded {
+		if !bytes.Equal(keptEncoded[i], keptCopies[i]) && bad == nil {
+			bad = fmt.Errorf("the result an earlier call returned through %q was overwritten by a later encode", keptNames[i])
+		}
+	}
+	keptEncoded, keptCopies, keptNames = nil, nil, nil
+	for i, o := range outs {
+		if o != nil {
+			keptEncoded = append(keptEncoded, o)
+			keptCopies = append(keptCopies, append([]byte{}, o...))
+			keptNames = append(keptNames, names[i])
+		}
+	}
+	return bad
 }
 
 // secondOfTwo takes the JSON text of an array of two values and returns the text of the second
@@ -867,7 +914,19 @@ func encodeSegmentPaths(f ldmodel.Segment) (outs [][]byte, errs []error, names [
 	ldmodel.MarshalSegmentToJSONWriter(f, &w)
 	b3, e3 := w.Bytes(), w.Error()
 	b4, e4 := f.MarshalJSON()
-	return [][]byte{b1, b2, b3, b4}, []error{e1, e2, e3, e4}, []string{"serialization", "encoding/json", "jwriter", "MarshalJSON"}
+	w2 := jwriter.NewWriter()
+	arr := w2.Array()
+	ldmodel.MarshalSegmentToJSONWriter(f, &w2)
+	ldmodel.MarshalSegmentToJSONWriter(f, &w2)
+	arr.End()
+	b5, e5 := secondOfTwo(w2.Bytes(), w2.Error())
+	outs = [][]byte{b1, b2, b3, b4, b5}
+	errs = []error{e1, e2, e3, e4, e5}
+	names = []string{"serialization", "encoding/json", "jwriter", "MarshalJSON", "jwriter, second of two values in one array"}
+	if bad := checkKept(outs, names); bad != nil {
+		outs, errs, names = append(outs, nil), append(errs, bad), append(names, "results of the previous encode calls")
+	}
+	return outs, errs, names
 }
 
 // encoding/json re-indents / escapes HTML differently from the raw writer; compare compacted,
